@@ -47,6 +47,11 @@ CHECKS = {
          "About 190 lexeme instances (every keyword and type name, punctuation, integer/float spellings, number+unit, identifiers incl. Unicode and keyword-prefixed, hardware qubits, bit strings, strings, comments, pragma/annotation lines, version header) in all ordered pairs x 7 separators and alone with leading/trailing trivia (thorough: all triples); the non-trivia token table must be exactly the expected (kind, text) list with no lexical error, hence identical across separators.",
          "Expected kinds are a hand-written table (keywords by naming convention). must_separate is conservative. Bare OPENQASM / pragma are excluded (header / line forms only).",
          "DESIGN.md section 7, C15"),
+ "C16": ("exploration",
+         "exhaustive enumeration of all sequences of error-free statements in every block context; differential comparison of the concatenation's statement list with the parts' own parses",
+         "A pool of ~95 statement texts (every leaf template, compounds with block and single-statement bodies, empty statement, pragma/annotation lines, definitions); those that parse cleanly alone (decided by the implementation) are concatenated in all sequences of length <= 2 in each of 9 contexts (file, if, else, while, for, case, default, gate, def) and of length 3 at top level (thorough: in every context); the concatenation must have no diagnostic and its statement list must equal the concatenation of the parts' lists by kind, token texts and preorder kind sequence.",
+         "Differential oracle, no expected value written by hand. One defect (assignment swallowing the next statement) was repaired by a fix: commit; two are recorded (empty statement after an item; `let` in blocks).",
+         "DESIGN.md section 7, C16"),
  "C19": ("model_checking",
          "explicit-state exploration of all operation histories on the real SymbolTable, lock-step comparison with a reference stack of maps",
          "All histories of length <= 6 (thorough: <= 8, 4.8e7) over the nine operations of the statement, plus a second alphabet (lookup-or-bind, gate and hardware-qubit bindings) and all short histories from 11 systematic non-initial states, are executed on the real SymbolTable (cloned at branch points); after every operation the result and the full observation vector (look-ups, scope size, depth, every id ever issued, gate and hardware-qubit listings) are compared with the reference model. Reports reference states, transitions and traces executed; every trace runs on the implementation.",
